@@ -109,6 +109,9 @@ func (g *Gen) typeName(prefix string, pkg int, i int) string {
 	return strings.ToLower(n[:1]) + n[1:]
 }
 
+// advFieldNames: field names that are prefixes of one another or differ only in case.
+var advFieldNames = []string{"Fa", "Fab", "FA", "Fabc", "F", "Fb", "FAb", "Fa2"}
+
 var allShapes = []string{"nstruct", "nstruct", "nstruct", "nstruct", "pstruct", "pstruct", "nint", "nstring", "slice", "array", "map", "chan", "rchan", "func", "ustruct", "wrapslice", "wrapmap", "wrapfunc", "basic", "generic", "alias", "pnint", "nfloat", "pslice", "aliasptr"}
 
 var basicPool = []string{"int", "string", "float64", "int64", "uint32", "bool", "complex128", "uint64", "rune", "uintptr"}
@@ -446,10 +449,15 @@ func (g *Gen) addNode() {
 		nd.deps = deps
 		var fs []FieldT
 		var names []string
+		advNames := r.Intn(2) == 0
 		for k, d := range deps {
 			fn := fmt.Sprintf("F%d", k)
+			if advNames && k < len(advFieldNames) {
+				// names that are prefixes of each other or differ only in case
+				fn = advFieldNames[k]
+			}
 			if pkg == 0 && r.Intn(3) == 0 {
-				fn = fmt.Sprintf("f%d", k)
+				fn = strings.ToLower(fn[:1]) + fn[1:]
 			}
 			fs = append(fs, FieldT{Name: fn, Ty: g.depTy(d)})
 			names = append(names, fn)
@@ -541,8 +549,11 @@ func (g *Gen) addNode() {
 			ft := g.newType(pkg, idx*10+j, true, false)
 			ftys = append(ftys, ft)
 			fn := fmt.Sprintf("Fld%d", j)
+			if idx%2 == 1 {
+				fn = []string{"Fld", "Fldx", "FLD"}[j]
+			}
 			if pkg == 0 && r.Intn(3) == 0 {
-				fn = fmt.Sprintf("fld%d", j)
+				fn = strings.ToLower(fn[:1]) + fn[1:]
 			}
 			fs = append(fs, FieldT{Name: fn, Ty: ft})
 		}
